@@ -27,6 +27,13 @@ func NewSocketBabbleProxyClient(nodeAddr string, timeout time.Duration) *SocketB
 
 func (p *SocketBabbleProxyClient) getConnection() error {
 	if p.rpc == nil {
+		if sc, ok, err := simDial(p.nodeAddr); ok {
+			if err != nil {
+				return err
+			}
+			p.rpc = jsonrpc.NewClient(sc)
+			return nil
+		}
 		conn, err := net.DialTimeout("tcp", p.nodeAddr, p.timeout)
 		if err != nil {
 			return err
